@@ -196,6 +196,11 @@ func (e *c21Env) spawn(poolSize int, opts ...RouterOption) (*PID, []string) {
 		e.t.Fatalf("router %s never reported %d routees", name, poolSize)
 	}
 	sort.Strings(names)
+	for _, n := range names {
+		if _, ok := e.sys.findRoutee(n); !ok {
+			fmt.Printf("C21DBG X after spawn: routee %s not in tree (router %s)\n", n, name)
+		}
+	}
 	return pid, names
 }
 
@@ -244,6 +249,14 @@ func (e *c21Env) stop(router *PID) {
 }
 
 func (e *c21Env) send(router *PID, m *c21Msg) {
+	if m.id%50 == 0 {
+		for i := 0; i < 2; i++ {
+			n := routeeName(i, router.Name())
+			if _, ok := e.sys.findRoutee(n); !ok {
+				fmt.Printf("C21DBG X at send id=%d: routee %s not in tree\n", m.id, n)
+			}
+		}
+	}
 	if err := Tell(context.Background(), router, NewBroadcast(m)); err != nil {
 		// a dead router is judged by what the ledger shows
 		e.r.Count("tell_errors", 1)
